@@ -19,6 +19,25 @@ CHECKS = {
         note=("trusted: CPython re, TLC; the design model abstracts rules to their width intervals; the link to all texts "
               "rests on the character-class alphabet plus random Unicode traces"),
         technique='TLA+ scan-loop model checked by TLC + TLC trace validation of instrumented lexer runs'),
+    'C02': dict(
+        category='model_checking',
+        text=("Every parse() result is projected (iteratively) into a node table and validated by TLC (TraceParse.tla over TokenTree.tla/"
+              "Text.tla): str(node) equals the concatenation of its leaf values for every node, the statements' leaves are the lexer's "
+              "tokens in order, only blank tokens are missing at the end, and the statement texts concatenate to the input up to trailing "
+              "whitespace. Inputs are TLC-generated (delimiter sequences enumerated exhaustively per interaction alphabet; ScriptGen scripts "
+              "and junk sequences) plus exhaustive short class strings, random Unicode and repo fixtures."),
+        design_ref='DESIGN.md §5 C02',
+        note='the design-level TokenTree GroupTokens model is checked under C03; trusted: TLC, projection code',
+        technique='TLC trace validation of projected parse trees against a TLA+ tree specification; TLC-generated inputs'),
+    'C03': dict(
+        category='model_checking',
+        text=("Same node tables, structural clauses: every node occurs once, groups non-empty, Token.parent = containing group, cached "
+              "value = text, leaves = lexer tokens (re-typing only Wildcard/Operator -> Operator); the navigation helpers (token_next/"
+              "token_prev with all flag combinations, token_first, token_index, get_token_at_offset for every offset, within, "
+              "has_ancestor, is_child_of) are called on the real tree and TLC recomputes every answer with the TokenTree.tla operators."),
+        design_ref='DESIGN.md §5 C03',
+        note='trusted: TLC, projection code; navigation queries are sampled on larger trees (all on small ones)',
+        technique='TLC trace validation of projected parse trees and navigation answers against TokenTree.tla'),
     'C04': dict(
         category='model_checking',
         text=("Design level: in the lock-step model a Splitter started fresh at each statement start stays equal to the running one "
@@ -41,6 +60,16 @@ CHECKS = {
         note=("token-level half decided here; character-level opacity of the region rules is C14's model; plain scripts = ScriptGen "
               "with constructs caseexpr, parensemi, createplain, txbegin"),
         technique='TLA+ lock-step refinement check (TLC) + TLC-generated scripts replayed + TLC trace validation'),
+    'C09': dict(
+        category='model_checking',
+        text=("TLC checks the transcription of _group_matching with its real index arithmetic (GroupMatching.tla) against the textbook "
+              "stack matcher for every sequence up to the bound (off-by-one mutant rejected), and compares the code-shaped multi-class "
+              "matcher with the textbook interior matcher (MatchRef.tla) at design level. TLC-enumerated delimiter sequences are spelled "
+              "and parsed; TLC decides for each real tree that the Parenthesis/SquareBrackets/Case/If/For/Begin nodes are exactly "
+              "MatchRef's intervals, each starting with its opener and ending (ignoring attached comments) with its closer."),
+        design_ref='DESIGN.md §5 C09',
+        note='one recorded finding (CASE/BEGIN shared END) matched by clause + model prediction + trigger tags',
+        technique='TLA+ model of the matcher (TLC exhaustive) + TLC-generated sequences replayed + TLC trace validation against MatchRef'),
     'C17': dict(
         category='model_checking',
         text=("Same lock-step composition with the procedural constructs of ScriptGen.tla (CREATE header, DECLARE, nested BEGIN, IF, "
